@@ -331,7 +331,7 @@ def correspondence(ctx):
 if __name__ == "__main__":
     common.run_check(
         "C08", module="Bermuda.Properties.C08", driver_targets=["drv_c08"],
-        correspondence=correspondence, level="translation_validation",
+        correspondence=correspondence, level="proof",
         rule="(triangle, resolution, origin) triples: month stream — source resolution 1/3/6/12 months, 1-3 slices (same or "
              "different layouts), square/triangle/ragged, int/dyadic scalar and array values, Cell/CumulativeCell/"
              "IncrementalCell; period and/or evaluation target among month/quarter/half-year/year spellings (also 2, 4 "
